@@ -94,3 +94,24 @@ Theorem C01_json_to_msgpack_same_value :
     fst (transcode_slice utf8_valid mp) = map evs (map to_mval js) /\
     mm_ok (transcode_reader utf8_valid mp) = true /\ mm_ok (transcode_slice utf8_valid mp) = true.
 Proof. exact json_to_msgpack_same_value. Qed.
+
+(* The premise on the spelling of floats, discharged for the concrete model of
+   serde_json's serialize_f64 / ryu's format64 (theories/JsonFloatModel.v: `null`
+   for non-finite values, otherwise the shortest decimal that reads back, nearest
+   to the value, ties to the even digit string, in ryu's five layouts; diffed
+   against the implementation by the RY and MJ correspondences): the reader model
+   reads the text back to the identical 64 bits, for every binary64 on which the
+   model's bounded search for the shortest digits succeeds ([ryu_ok]; that it
+   succeeds for every finite value is measured, not proved). *)
+From XtModel Require Import JsonFloatModel JsonFloatProofs.
+
+Theorem C01_json_float_spelling_reads_back :
+  forall b, ryu_ok b = true -> forall f depth tail, val_end tail ->
+    parse_value (S f) depth (json_f64 b ++ tail) = ([EF64 b], JOk tail).
+Proof. exact json_f64_reads. Qed.
+
+(* so the read-back theorem holds with floats inside, no premise left *)
+Theorem C01_json_reads_what_was_written_with_floats :
+  forall (v : jval) (tail : bytes), writable ryu_ok v -> val_end tail ->
+    json_value (jwrite json_f64 v ++ tail) = (jevs v, JOk tail).
+Proof. exact (json_value_reads_back json_f64 ryu_ok json_f64_reads json_f64_head). Qed.
